@@ -22,8 +22,7 @@ IsTcp(r) == "layer" \in DOMAIN r /\ r.layer = "tcp"
 Holds10(r) == IF IsTcp(r) THEN Tcp_C10(r.v, r.o) ELSE C10(r.v, r.o)
 Holds11(r) == IF IsTcp(r) THEN Tcp_C11(r.v, r.o) ELSE C11(r.v, r.o)
 
-Clauses(r) == IF IsTcp(r)
-              THEN (IF Tcp_C10(r.v, r.o) THEN {} ELSE {"Tcp_C10"}) \cup (IF Tcp_C11(r.v, r.o) THEN {} ELSE {"Tcp_C11"})
+Clauses(r) == IF IsTcp(r) THEN Tcp_Clauses(r.v, r.o)
               ELSE C10_Clauses(r.v, r.o) \cup C11_Clauses(r.v, r.o)
 
 \* prints a falsified record
